@@ -24,6 +24,7 @@ import (
 	"strconv"
 	"strings"
 	"sync"
+	"sync/atomic"
 	"time"
 )
 
@@ -58,6 +59,16 @@ type Rec struct {
 	maxSamples  int
 	out         *bufio.Writer
 	deadline    time.Time
+	cur         atomic.Value // last case announced with Enter (for the hang watchdog)
+	stamp       int64        // bumped by Enter and Begin
+	maxGap      int64        // longest time without progress seen by the watchdog (ms)
+}
+
+// Enter cheaply notes the case that is about to run (no I/O); if the unit then makes no
+// progress for the hang limit, the watchdog attributes the hang to this case.
+func (r *Rec) Enter(c interface{}) {
+	r.cur.Store(&c)
+	atomic.AddInt64(&r.stamp, 1)
 }
 
 func newRec(unit string, out *bufio.Writer) *Rec {
@@ -123,6 +134,7 @@ func (r *Rec) Fail(sig, what string, c interface{}) {
 // Begin announces a case that may kill the worker process; if the worker dies
 // the parent attributes the death to the last announced case.
 func (r *Rec) Begin(c interface{}) {
+	r.Enter(c)
 	b, _ := json.Marshal(c)
 	r.out.WriteString("B ")
 	r.out.Write(b)
@@ -154,6 +166,11 @@ type Check struct {
 	Required func(tier string) []string
 	// Deadline per tier; when hit the run ends with exhaustive:false, exit 0.
 	Deadline func(tier string) time.Duration
+	// HangLimit: a unit that neither counts an evaluation nor announces a case for this long is
+	// reported as a hang of the code under test (default 90s, VERIF_HANG overrides). A single case
+	// of every check takes micro- to milliseconds (C14/C19 subprocess cases: seconds, with their own
+	// watchdogs), so the limit is four or more orders of magnitude above the normal case time.
+	HangLimit time.Duration
 	// DiedSig classifies the death of a worker on an announced case.
 	DiedSig func(c json.RawMessage, stderr string) (sig, what string)
 	// Finish may add coverage keys computed from the merged counters.
@@ -306,6 +323,10 @@ func workerMain(c *Check, tier string) {
 			if ms > 0 {
 				r.deadline = time.UnixMilli(ms)
 			}
+			stop := startWatchdog(c, tier, unit, r, func(line string) {
+				os.Stdout.WriteString(line)
+				os.Exit(3)
+			})
 			func() {
 				defer func() {
 					if p := recover(); p != nil {
@@ -314,6 +335,8 @@ func workerMain(c *Check, tier string) {
 				}()
 				c.Run(tier, unit, r)
 			}()
+			stop()
+			r.Counters["max_ms_without_progress"] = atomic.LoadInt64(&r.maxGap)
 			r.HashBlob = encodeHashes(r.hset)
 			b, _ := json.Marshal(r)
 			out.WriteString("R ")
@@ -325,6 +348,86 @@ func workerMain(c *Check, tier string) {
 			return
 		}
 	}
+}
+
+// hangLimit is the no-progress time after which a unit is declared hung.
+func hangLimit(c *Check) time.Duration {
+	d := 90 * time.Second
+	if c.HangLimit > 0 {
+		d = c.HangLimit
+	}
+	if s := os.Getenv("VERIF_HANG"); s != "" {
+		if v, err := time.ParseDuration(s); err == nil && v > 0 {
+			d = v
+		}
+	}
+	return d
+}
+
+// HangCase is the replayable description of a hang: the unit (deterministic) is run again under
+// the same watchdog; Case is the case announced last, when the unit announces cases.
+type HangCase struct {
+	HangUnit string          `json:"hang_unit"`
+	Tier     string          `json:"tier"`
+	Evals    int64           `json:"evaluations_before"`
+	Case     json.RawMessage `json:"last_case,omitempty"`
+}
+
+// startWatchdog watches r for progress (evaluation count, Enter/Begin stamps); on a hang it calls
+// report with an "H <json>\n" line. The returned function stops it.
+func startWatchdog(c *Check, tier, unit string, r *Rec, report func(line string)) func() {
+	limit := hangLimit(c)
+	done := make(chan struct{})
+	go func() {
+		lastE, lastS := int64(-1), int64(-1)
+		since := time.Now()
+		t := time.NewTicker(500 * time.Millisecond)
+		defer t.Stop()
+		for {
+			select {
+			case <-done:
+				return
+			case <-t.C:
+			}
+			e, st := atomic.LoadInt64(&r.Evaluations), atomic.LoadInt64(&r.stamp)
+			if g := time.Since(since).Milliseconds(); g > atomic.LoadInt64(&r.maxGap) {
+				atomic.StoreInt64(&r.maxGap, g)
+			}
+			if e != lastE || st != lastS {
+				lastE, lastS, since = e, st, time.Now()
+				continue
+			}
+			if time.Since(since) < limit {
+				continue
+			}
+			hc := HangCase{HangUnit: unit, Tier: tier, Evals: e}
+			if p, ok := r.cur.Load().(*interface{}); ok && p != nil {
+				hc.Case, _ = json.Marshal(*p)
+			}
+			b, _ := json.Marshal(hc)
+			report("H " + string(b) + "\n")
+			return
+		}
+	}()
+	return func() { close(done) }
+}
+
+// hangSig names a hang by the unit family (unit name without chunk numbers).
+func hangSig(unit string) string {
+	if i := strings.Index(unit, "\x00after="); i >= 0 {
+		unit = unit[:i]
+	}
+	var sb strings.Builder
+	for _, f := range strings.FieldsFunc(unit, func(r rune) bool { return r == ':' || r == '/' || r == ',' }) {
+		if _, err := strconv.ParseInt(f, 10, 64); err == nil {
+			continue
+		}
+		if sb.Len() > 0 {
+			sb.WriteByte(':')
+		}
+		sb.WriteString(f)
+	}
+	return "hang:" + sb.String()
 }
 
 func encodeHashes(m map[uint64]struct{}) string {
@@ -359,7 +462,7 @@ type merged struct {
 	unitsDone   int
 }
 
-var maxCounters = map[string]bool{}
+var maxCounters = map[string]bool{"max_ms_without_progress": true}
 
 // MaxCounter declares that a counter merges by maximum instead of by sum.
 func MaxCounter(name string) { maxCounters[name] = true }
@@ -427,6 +530,13 @@ func parentMain(c *Check, tier string, jobs int) int {
 			deadline = start.Add(d)
 		}
 	}
+	// VERIF_DEADLINE (a Go duration) replaces the tier's soft deadline, for deeper or shorter runs
+	// of the same plan; what was not reached is reported as exhaustive:false either way.
+	if s := os.Getenv("VERIF_DEADLINE"); s != "" {
+		if d, err := time.ParseDuration(s); err == nil && d > 0 {
+			deadline = start.Add(d)
+		}
+	}
 	m := &merged{hashes: map[uint64]struct{}{}, counters: map[string]int64{},
 		findings: map[string]Finding{}, findingN: map[string]int64{}}
 	work := make(chan string, len(units))
@@ -481,7 +591,11 @@ func parentMain(c *Check, tier string, jobs int) int {
 		// re-run before believing
 		if c.Replay != nil {
 			okN := 0
-			for i := 0; i < 5; i++ {
+			tries := 5
+			if strings.HasPrefix(s, "hang:") {
+				tries = 2 // each costs the time to the hang plus the hang limit
+			}
+			for i := 0; i < tries; i++ {
 				got, _ := replayInSubprocess(c, f.Case)
 				for _, g := range strings.Split(got, "\x1f") {
 					if g == s || (c.SameFinding != nil && g != "" && c.SameFinding(s, g)) {
@@ -490,12 +604,12 @@ func parentMain(c *Check, tier string, jobs int) int {
 					}
 				}
 			}
-			need := 5
-			if c.MinRepro > 0 {
+			need := tries
+			if c.MinRepro > 0 && c.MinRepro < need {
 				need = c.MinRepro
 			}
 			if okN < need {
-				fmt.Fprintf(os.Stderr, "INTERNAL: finding %s reproduced %d/5 times on replay; not reported as violation\ncase: %s\n", s, okN, f.Case)
+				fmt.Fprintf(os.Stderr, "INTERNAL: finding %s reproduced %d/%d times on replay; not reported as violation\ncase: %s\n", s, okN, tries, f.Case)
 				exit = 2
 				continue
 			}
@@ -580,6 +694,7 @@ func runWorker(c *Check, tier string, work chan string, m *merged, deadline time
 			}
 			rd := bufio.NewReaderSize(stdout, 1<<20)
 			var lastBegin json.RawMessage
+			var hang json.RawMessage
 			died := false
 			send := func(u string) {
 				ms := int64(0)
@@ -594,6 +709,10 @@ func runWorker(c *Check, tier string, work chan string, m *merged, deadline time
 				line, err := rd.ReadString('\n')
 				if strings.HasPrefix(line, "B ") {
 					lastBegin = json.RawMessage(strings.TrimSpace(line[2:]))
+					continue
+				}
+				if strings.HasPrefix(line, "H ") {
+					hang = json.RawMessage(strings.TrimSpace(line[2:]))
 					continue
 				}
 				if strings.HasPrefix(line, "R ") {
@@ -626,6 +745,19 @@ func runWorker(c *Check, tier string, work chan string, m *merged, deadline time
 			}
 			stdin.Close()
 			cmd.Wait()
+			if died && hang != nil {
+				// the code under test did not return: a finding for the unit; the unit is not resumed
+				r := newRec(cur, nil)
+				r.Fail(hangSig(cur), fmt.Sprintf("no progress for %s in unit %q: the code under test does not return (case: last_case if the unit announces cases, else re-run the unit)", hangLimit(c), cur), hang)
+				r.HashBlob = ""
+				m.add(r)
+				m.mu.Lock()
+				m.unitsDone--
+				m.capped = true
+				m.mu.Unlock()
+				pending = nil
+				continue
+			}
 			if died {
 				if lastBegin != nil && c.DiedSig != nil {
 					sig, what := c.DiedSig(lastBegin, errBuf.String())
@@ -737,14 +869,32 @@ func replayMain(c *Check, path string) int {
 		fmt.Fprintln(os.Stderr, err)
 		return 2
 	}
-	if c.Replay == nil {
-		fmt.Fprintln(os.Stderr, "no replay for this check")
-		return 2
-	}
 	debug.SetMaxStack(64 << 20)
 	runtime.GOMAXPROCS(2) // as in the worker processes (code under test may read it)
 	if c.WorkerInit != nil {
 		c.WorkerInit()
+	}
+	var hc HangCase
+	if json.Unmarshal(rf.Case, &hc) == nil && hc.HangUnit != "" {
+		// re-run the (deterministic) unit under the same watchdog
+		r := newRec(hc.HangUnit, bufio.NewWriter(io.Discard))
+		stop := startWatchdog(c, hc.Tier, hc.HangUnit, r, func(line string) {
+			fmt.Println("unit hung again: " + strings.TrimSpace(line))
+			fmt.Println("REPLAY-SIG: " + hangSig(hc.HangUnit))
+			os.Exit(1)
+		})
+		func() {
+			defer func() { recover() }()
+			c.Run(hc.Tier, hc.HangUnit, r)
+		}()
+		stop()
+		fmt.Println("unit completed")
+		fmt.Println("REPLAY-PASS")
+		return 0
+	}
+	if c.Replay == nil {
+		fmt.Fprintln(os.Stderr, "no replay for this check")
+		return 2
 	}
 	sig, obs := c.Replay(rf.Case)
 	fmt.Println(obs)
